@@ -199,7 +199,15 @@ pub fn create_cases() -> Vec<AuthCase> {
                     if !domain_ok {
                         e.room_id = "!r:elsewhere".into();
                     }
-                    out.push(s.case("create", e));
+                    out.push(s.case("create", e.clone()));
+                    // rule 1 goes by the type alone: a create-typed event with another state key, or
+                    // none, is judged by the same rule (and selects no auth events)
+                    for key in [None, Some("x"), Some(CREATOR)] {
+                        let mut e2 = e.clone();
+                        e2.state_key = key.map(Into::into);
+                        e2.id = format!("{}k{}", e.id.trim_end_matches(":hs1"), key.map_or(0, str::len)) + ":hs1";
+                        out.push(s.case("create/other-state-key", e2));
+                    }
                 }
             }
         }
@@ -616,7 +624,15 @@ pub fn redaction_cases() -> Vec<AuthCase> {
                     s.pl(c);
                     let mut e = s.event("m.room.redaction", None, ALICE, json!({"reason": "r"}));
                     e.redacts = Some(if same_domain { "$t:hs1".to_owned() } else { "$t:hs2.example".to_owned() });
-                    out.push(s.case("redaction", e));
+                    out.push(s.case("redaction", e.clone()));
+                    // v1-2 compare the domain of the redaction's own event id (not of its sender)
+                    // with the domain of the redacted event's id: ids minted by another server
+                    for (own, target) in [("hs2.example", "hs2.example"), ("hs2.example", "hs1"), ("hs3.example", "hs2.example"), ("hs1", "hs1:8448")] {
+                        let mut e2 = e.clone();
+                        e2.id = format!("$red{}:{own}", out.len());
+                        e2.redacts = Some(format!("$t:{target}"));
+                        out.push(s.case("redaction/id-domains", e2));
+                    }
                 }
             }
         }
